@@ -308,11 +308,16 @@ def removeMemOld (mem : AL (Nat × Key) (List Key)) (t : Nat) (i a : Key) : AL (
   | some is => mem.put (t, a) (delSet is i)
   | none => mem
 
+/-- `AddAliases` once index and alias name are accepted -/
+def addAlias (st : St) (t : Nat) (i a : Key) : St × Out :=
+  let cur := insSet ((st.files.get (t, i)).getD []) a
+  ({ files := st.files.put (t, i) cur, mem := cur.foldl (fun m key => putMem m t key i) st.mem }, .res .ok)
+
 def step (st : St) : Op → St × Out
   | .add t i a =>
     if !validIndex i then (st, .res .invalid) else
-    let cur := insSet ((st.files.get (t, i)).getD []) a
-    ({ files := st.files.put (t, i) cur, mem := cur.foldl (fun m key => putMem m t key i) st.mem }, .res .ok)
+    -- patch c20-14: an alias must be a name an index could have (`IsValidIndexName(alias)`)
+    if !validIndex a then (st, .res .invalid) else addAlias st t i a
   | .remove t i a =>
     if !validIndex i then (st, .res .invalid) else
     ({ files := (removeFile st.files t i a).1, mem := removeMem st.mem t i a }, .res (removeFile st.files t i a).2)
@@ -329,6 +334,20 @@ def stepOldFlush (st : St) : Op → St × Out
   | .graceful => ({ files := flushOld st.files st.mem, mem := rebuild (flushOld st.files st.mem) }, .gracefulRestarted)
   | op => step st op
 
+/-- the behaviour before patch c20-14 (everything else as now): alias names were not validated — the EMPTY alias
+was written into the index' file (returned by `GetAliases`) while `putAliasToIndexInMem` refuses it, so the two
+views of the store disagreed for ever -/
+def stepOldAnyAlias (st : St) : Op → St × Out
+  | .add t i a => if !validIndex i then (st, .res .invalid) else addAlias st t i a
+  | op => step st op
+
+def runOldAnyAlias (st : St) : List Op → St × List Out
+  | [] => (st, [])
+  | op :: r =>
+    let (st1, o) := stepOldAnyAlias st op
+    let (st2, os) := runOldAnyAlias st1 r
+    (st2, o :: os)
+
 /-- the behaviour before patches c20-1 / c20-2 (kept for the counterexample theorems) -/
 def stepOld (st : St) : Op → St × Out
   | .remove t i a =>
@@ -341,7 +360,7 @@ def stepOld (st : St) : Op → St × Out
 def abs (st : St) : Spec Nat Key (List Key) := fun t i => st.files.get (t, i)
 
 def specStep (s : Spec Nat Key (List Key)) : Op → Spec Nat Key (List Key)
-  | .add t i a => if !validIndex i then s else s.set t i (some (insSet ((s t i).getD []) a))
+  | .add t i a => if !validIndex i || !validIndex a then s else s.set t i (some (insSet ((s t i).getD []) a))
   | .remove t i a =>
     if !validIndex i then s else
     let cur := delSet ((s t i).getD []) a
@@ -353,7 +372,7 @@ def Spec.has (s : Spec Nat Key (List Key)) (t : Nat) (i a : Key) : Prop := a ∈
 
 /-- `o` is the documented answer to `op` in the abstract state `s` -/
 def OutOk (s : Spec Nat Key (List Key)) : Op → Out → Prop
-  | .add _ i _, o => o = .res (if validIndex i then .ok else .invalid)
+  | .add _ i a, o => o = .res (if validIndex i && validIndex a then .ok else .invalid)
   | .remove t i a, o =>
     o = .res (if !validIndex i then .invalid
               else if delSet ((s t i).getD []) a = [] ∧ s t i = none then .notFound else .ok)
@@ -617,8 +636,9 @@ def listFold (old : Bool) (fs : FS) (t : Nat) (items : List (Nat × Item)) (acc 
 
 /-- one operation.  `old = false`: the code WITH patches c20-3 (updateDashboard rejects an id that is not a
 dashboard; the path / breadcrumb walks are bounded by the number of items), c20-4 (updateFolder rejects an id
-that is not a folder) and c20-5 (getDashboard / toggleFavorite serve only dashboards of the caller's own
-folder structure); `old = true`: the behaviour before them -/
+that is not a folder), c20-5 (getDashboard / toggleFavorite serve only dashboards of the caller's own
+folder structure) and c20-13 (updateFolder tests the name of a MOVED folder against its new siblings);
+`old = true`: the behaviour before them -/
 def stepG (old : Bool) (st : St) : Op → St × Out
   | .createDash t name payload parent =>
     let fs := st.fs t
@@ -706,10 +726,13 @@ def stepG (old : Bool) (st : St) : Op → St × Out
       | .error e => (st, .res e)
       | .ok (fs1, it1) =>
         let ren : Bool := match name with | some n => decide (n ≠ it1.name) | none => false
+        -- patch c20-13: the duplicate-name test also runs for a folder that is only MOVED (under the name it keeps);
+        -- before it (`old`) only a rename was tested
+        let newName : Key := match name with | some n => n | none => it1.name
         let taken : Bool := match (match newParent with | some np => some np | none => it1.parent) with
-              | some p => nameTaken fs1 p (name.getD []) none (some id)
+              | some p => nameTaken fs1 p newName none (some id)
               | none => false
-        if ren && taken then (st, .res .exists_) else
+        if (ren || (!old && moving)) && taken then (st, .res .exists_) else
         let it2 := if ren then { it1 with name := name.getD [] } else it1
         (setFS st t { fs1 with items := fs1.items.put id it2 }, .res .ok)
   | .deleteDash t id =>
@@ -775,6 +798,13 @@ def runG (old : Bool) (st : St) : List Op → St × List Out
 abbrev run := runG false
 abbrev runOld := runG true
 
+/-- names of the FOLDERS among the children of `p` (what `getFolderContents` lists), in order -/
+def folderNames (fs : FS) (p : Nat) : List Key :=
+  ((fs.order.get p).getD []).filterMap (fun c =>
+    match fs.items.get c with
+    | some it => if it.ty = .folder then some it.name else none
+    | none => none)
+
 def Op.tenant : Op → Option Nat
   | .createDash t _ _ _ => some t | .createFolder t _ _ => some t | .updateDash t _ _ _ _ => some t
   | .updateFolder t _ _ _ => some t | .deleteDash t _ => some t | .deleteFolder t _ => some t
@@ -789,8 +819,11 @@ Table `contacts` (primary key contact_id, UNIQUE contact_name — unique over AL
 many-to-many association `Slack`.  The model follows the code WITH patches c20-6 / c20-7 / c20-8:
 CreateContact :481 (a contact with the same name exists ⇒ "already exist" error), UpdateContactPoint :512
 (the Slack list of the request replaces the stored one, clear + save in one transaction — a refused save
-changes nothing; still NO org check, the saved row carries the caller's org id), DeleteContactPoint :663
-(no org check), GetAllContactPoints :503.  The behaviour before the patches is kept as `stepOld`.
+changes nothing), DeleteContactPoint :663, GetAllContactPoints :503; and, since the suite drives the REQUEST
+HANDLERS (pkg/alerts/alertsHandler ProcessCreate/Update/DeleteContactRequest, the org of a request resolved by
+the org id hook), WITH patches c20-15 (UpdateContactPoint keeps the org of the stored row, whatever org_id the
+request body carries) and c20-18 (update / delete answer a contact of another org like one that does not exist).
+The behaviour before c20-6/7/8 is kept as `stepOld`, the behaviour before c20-15 / c20-18 as `stepBodyOrg`.
 Ids are UUIDs in the code, consecutive numbers (from 1) here. -/
 namespace Contact
 
@@ -834,15 +867,32 @@ def step (st : St) : Op → St × Out
   | .update t id name pager slack =>
     match st.rows.get id with
     | none => (st, .res .notFound)
+    | some r =>
+      if r.org ≠ t then (st, .res .notFound) else        -- c20-18: not a contact of the request's org
+      if nameUsed st.rows name (some id) then (st, .res .exists_) else
+      ({ st with rows := st.rows.put id { name := name, org := r.org, pager := pager, slack := slack } }, .res .ok)   -- c20-15
+  | .delete t id =>
+    match st.rows.get id with
+    | none => (st, .res .notFound)
+    | some r => if r.org ≠ t then (st, .res .notFound) else ({ st with rows := st.rows.del id }, .res .ok)
+  | .list t => (st, .rows (st.rows.filter (fun e => e.2.org = t)))
+  | .restart => (st, .restarted)
+
+/-- the behaviour before patches c20-15 / c20-18 (with c20-6/7/8 in place): update and delete address a contact by
+its id alone, and the saved row carries the org the request BODY names (`bodyOrg t`; a body without `org_id`
+means org 0) -/
+def stepBodyOrg (bodyOrg : Nat → Nat) (st : St) : Op → St × Out
+  | .update t id name pager slack =>
+    match st.rows.get id with
+    | none => (st, .res .notFound)
     | some _ =>
       if nameUsed st.rows name (some id) then (st, .res .exists_) else
-      ({ st with rows := st.rows.put id { name := name, org := t, pager := pager, slack := slack } }, .res .ok)
+      ({ st with rows := st.rows.put id { name := name, org := bodyOrg t, pager := pager, slack := slack } }, .res .ok)
   | .delete _ id =>
     match st.rows.get id with
     | none => (st, .res .notFound)
     | some _ => ({ st with rows := st.rows.del id }, .res .ok)
-  | .list t => (st, .rows (st.rows.filter (fun e => e.2.org = t)))
-  | .restart => (st, .restarted)
+  | op => step st op
 
 /-- the behaviour before patches c20-6 / c20-7 / c20-8: a create with an existing name is acknowledged and
 dropped; the Slack association is cleared only when the new list is not empty, and BEFORE (outside the
@@ -911,10 +961,11 @@ def RefinesWith (stp : St → Op → St × Out) : Spec Nat Nat CVal → St → L
 
 abbrev Refines := RefinesWith step
 abbrev RefinesOld := RefinesWith stepOld
+/-- before c20-15 / c20-18, for a client that puts its own org into the body -/
+abbrev RefinesBodyOrg := RefinesWith (stepBodyOrg id)
 
-/-- guard of one step: update and delete address a contact of the caller's org, or no contact at all
-(UpdateContactPoint / DeleteContactPoint and their handlers carry no org id: an id of another org is
-accepted — known finding kv/contact/foreign-tenant-write) -/
+/-- guard of one step (needed only for the behaviour before patch c20-18): update and delete address a contact of
+the caller's org, or no contact at all -/
 def stepOwn (st : St) : Op → Bool
   | .update t id _ _ _ =>
     match st.rows.get id with
@@ -930,6 +981,13 @@ def OwnIds : St → List Op → Bool
   | _, [] => true
   | st, op :: r => stepOwn st op && OwnIds (step st op).1 r
 
+def runBodyOrg (bodyOrg : Nat → Nat) (st : St) : List Op → St × List Out
+  | [] => (st, [])
+  | op :: r =>
+    let (st1, o) := stepBodyOrg bodyOrg st op
+    let (st2, os) := runBodyOrg bodyOrg st1 r
+    (st2, o :: os)
+
 def Op.tenant : Op → Option Nat
   | .create t _ _ _ => some t | .update t _ _ _ _ => some t | .delete t _ => some t | .list t => some t
   | .restart => none
@@ -944,8 +1002,14 @@ answers true on BOTH branches, so a duplicate name is only caught by the UNIQUE 
 inserted; the contact must exist — in whatever org), GetAlert :272 (an unknown id answers an EMPTY alert, no
 error; no org check), UpdateAlert :361 as called by ProcessUpdateAlertRequest (GetAlert, overwrite the
 configuration fields, UpdateAlert: name valid, alert exists — the empty id of an unknown alert is "not valid" —,
-a CHANGED contact must exist and its name is copied, Save fails on a duplicate name; no org check, the row keeps
-its org), DeleteAlert :445 (no org check), GetAllAlerts :298.  The auxiliary contact create follows patch c20-8.
+a CHANGED contact must exist and its name is copied, Save fails on a duplicate name; the row keeps its org),
+DeleteAlert :445, GetAllAlerts :298.  The auxiliary contact create follows patch c20-8.
+The suite drives the REQUEST HANDLERS (ProcessCreate/Update/Delete/GetAlertRequest; the org of a request is
+resolved by the org id hook), WITH patches c20-16 (the created alert belongs to the org of the request, whatever
+org_id the body carries) and c20-18 (`getAlertOfRequest`: update / delete / get answer an alert of another org
+like one that does not exist; the EMPTY alert that GetAlert returns for an unknown id has org 0, so an unknown id
+is "does not exist" for every org but org 0, where the old answers remain).  The behaviour before c20-18 is kept
+as `stepNoOrg`, the create before c20-16 as `createBodyOrg`.
 Alerts and contacts are numbered separately from 1. -/
 namespace AlertDB
 
@@ -1001,6 +1065,31 @@ def step (st : St) : Op → St × Out
       if nameUsed st.alerts name none then (st, .res .exists_) else
       ({ st with alerts := st.alerts.put st.nextA { name := name, org := t, msg := msg, cid := cid, cname := cn },
                  nextA := st.nextA + 1 }, .created st.nextA)
+  | .update t id name msg cid =>
+    match st.alerts.get id with
+    | none => if t ≠ 0 then (st, .res .notFound) else (st, .res .invalid)   -- the empty alert has org 0 and the id ""
+    | some r =>
+      if r.org ≠ t then (st, .res .notFound) else        -- c20-18
+      if !validName name then (st, .res .invalid) else
+      let newCid := cid.getD r.cid
+      match (if newCid = r.cid then some r.cname else st.contacts.get newCid) with
+      | none => (st, .res .parentNotFound)
+      | some cn =>
+        if nameUsed st.alerts name (some id) then (st, .res .exists_) else
+        ({ st with alerts := st.alerts.put id { r with name := name, msg := msg, cid := newCid, cname := cn } }, .res .ok)
+  | .delete t id =>
+    match st.alerts.get id with
+    | none => (st, .res .notFound)
+    | some r => if r.org ≠ t then (st, .res .notFound) else ({ st with alerts := st.alerts.del id }, .res .ok)
+  | .get t id =>
+    match st.alerts.get id with
+    | none => if t ≠ 0 then (st, .res .notFound) else (st, .noAlert)
+    | some r => if r.org ≠ t then (st, .res .notFound) else (st, .alert id r)
+  | .list t => (st, .rows (st.alerts.filter (fun e => e.2.org = t)))
+  | .restart => (st, .restarted)
+
+/-- the behaviour before patch c20-18: update / delete / get address an alert by its id alone -/
+def stepNoOrg (st : St) : Op → St × Out
   | .update _ id name msg cid =>
     if !validName name then (st, .res .invalid) else
     match st.alerts.get id with
@@ -1020,8 +1109,15 @@ def step (st : St) : Op → St × Out
     match st.alerts.get id with
     | none => (st, .noAlert)
     | some r => (st, .alert id r)
-  | .list t => (st, .rows (st.alerts.filter (fun e => e.2.org = t)))
-  | .restart => (st, .restarted)
+  | op => step st op
+
+/-- the create request before patch c20-16: the alert is stored for the org the request BODY names -/
+def createBodyOrg (st : St) (bodyOrg : Nat) (name : Key) (msg : String) (cid : Nat) : St × Out :=
+  step st (.create bodyOrg name msg cid)
+
+def Op.tenant : Op → Option Nat
+  | .contact t _ => some t | .create t _ _ _ => some t | .update t _ _ _ _ => some t | .delete t _ => some t
+  | .get t _ => some t | .list t => some t | .restart => none
 
 def run (st : St) : List Op → St × List Out
   | [] => (st, [])
